@@ -747,8 +747,11 @@ def parse_model(out):
     return res
 
 
-def near_tie_areas(rec, rel=1e-9):
-    """the overlap-driven choice of the real run was (nearly) a tie somewhere"""
+def near_tie_areas(rec, rel=1e-6):
+    """the overlap-driven choice of the real run was (nearly) a tie somewhere.  The areas come from spherical_geometry and
+    are reproducible only to 1e-7 ... 1e-5 relative (finding F21): between two machines the same scenario can be an exact
+    tie on one and an ordered pair on the other, so everything closer than 1e-6 relative counts as a tie (a run of
+    `vp check` on a fresh copy of the sandbox disagreed with the model on a scenario that is an exact tie here)"""
     for oc in rec['obs'].order_calls:
         if oc['enforce']:
             continue
